@@ -133,6 +133,51 @@ fn deviations(inst: &[PTok]) -> Vec<(Vec<PTok>, &'static str)> {
             out.push((d, "replace"));
         }
     }
+    // a block written as keyword item: /begin TAG .. /end TAG -> TAG ..
+    for i in 0..inst.len() {
+        if inst[i] != PTok::Begin {
+            continue;
+        }
+        let mut depth = 0i32;
+        for j in i..inst.len() {
+            match inst[j] {
+                PTok::Begin => depth += 1,
+                PTok::End => {
+                    depth -= 1;
+                    if depth == 0 {
+                        let mut d = inst.to_vec();
+                        if j + 1 < d.len() {
+                            d.remove(j + 1);
+                        }
+                        d.remove(j);
+                        d.remove(i);
+                        out.push((d, "unblock"));
+                        break;
+                    }
+                }
+                _ => {}
+            }
+        }
+    }
+    // a keyword item written as block: TAG v1 .. vk -> /begin TAG v1 .. vk /end TAG (k = 0..4, not across /begin or /end)
+    for i in 0..inst.len() {
+        let PTok::Ident(tag) = &inst[i] else { continue };
+        if i > 0 && matches!(inst[i - 1], PTok::Begin | PTok::End) {
+            continue;
+        }
+        for k in 0..=4usize {
+            if i + k >= inst.len() || inst[i + 1..=i + k].iter().any(|t| matches!(t, PTok::Begin | PTok::End)) {
+                break;
+            }
+            let mut d = inst[..i].to_vec();
+            d.push(PTok::Begin);
+            d.extend(inst[i..=i + k].iter().cloned());
+            d.push(PTok::End);
+            d.push(PTok::Ident(tag.clone()));
+            d.extend(inst[i + k + 1..].iter().cloned());
+            out.push((d, "block"));
+        }
+    }
     // an extra token at the end
     for a in &alts[..2] {
         let mut d = inst.to_vec();
@@ -321,7 +366,7 @@ pub fn run(tier: &str) -> Run {
     run.require("conforming: valid, preserved", 5000);
     run.require("non-conforming: invalid, preserved", 5000);
     run.require("ifdata_cleanup: exactly the valid blocks remain", 300);
-    run.rule = "programs = A2ML definitions from the generator (14 leaf types incl. all 10 scalars, char[n], enums with/without values, 1- and 2-dimensional arrays; structs; taggedstruct / taggedunion items in the forms tag, tag member, block, repeated, repeated block, tag (member)*; nesting depth 2 (thorough 3); named type referenced later; top-level (member)*); per definition all instances of the enumerator (cap 8 / 24) under the supply modes in-file / built-in / both, and for the first instances every single-token deletion, duplication, replacement by another lexical class and appended token that keeps /begin-/end balanced. Oracle: strict reference matcher accepts => ifdata_valid and payload tokens preserved (integer notation kept, floats at the precision of the type); lenient matcher rejects => load succeeds, ifdata_valid false, payload preserved; in between (identifier for string, over-long string, duplicate non-repeatable tag) don't care; reload equal; ifdata_cleanup() keeps exactly the valid blocks.".into();
+    run.rule = "programs = A2ML definitions from the generator (14 leaf types incl. all 10 scalars, char[n], enums with/without values, 1- and 2-dimensional arrays; structs; taggedstruct / taggedunion items in the forms tag, tag member, block, repeated, repeated block, tag (member)*; nesting depth 2 (thorough 3); named type referenced later; top-level (member)*); per definition all instances of the enumerator (cap 8 / 24) under the supply modes in-file / built-in / both, and for the first instances every single-token deletion, duplication, replacement by another lexical class and appended token that keeps /begin-/end balanced, every block written as keyword item and every keyword item with its next 0..4 values written as block. Oracle: strict reference matcher accepts => ifdata_valid and payload tokens preserved (integer notation kept, floats at the precision of the type); lenient matcher rejects => load succeeds, ifdata_valid false, payload preserved; in between (identifier for string, over-long string, duplicate non-repeatable tag) don't care; reload equal; ifdata_cleanup() keeps exactly the valid blocks.".into();
     run
 }
 
